@@ -84,6 +84,8 @@ def twice(tier):
     T = [
         (m([['%define ', N1, ' v'], ['k1 $', ['ref', 0, 1]]]), m([['k1 $', N1]])),
         (m([['%define ', N2, ' ', D1]]), m([['%define ', N2, ' ', D1], ['k1 $', N2]])),
+        # the first load fails after its definition was read
+        (m([['%define ', N1, ' v'], 'nosuchkey 1']), m([['%define ', N1, ' ', D1], ['k1 $', N1]])),
     ]
     return T
 
@@ -120,6 +122,8 @@ class C05(P.TextMixin, Harness):
     def units(self, tier):
         us = [{'files': f} for f in layouts(tier) + generated(tier)]
         us += [{'files': a, 'files2': b} for a, b in twice(tier)]
+        # the same two loads through ONE ConfigLoader object (the documented loader class)
+        us += [{'files': a, 'files2': b, 'same_loader': True} for a, b in twice(tier)]
         return us
 
     def inputs(self, eng, unit):
@@ -158,17 +162,32 @@ class C05(P.TextMixin, Harness):
         P._SCHEMA_CACHE.clear()
         # the same schema object serves both loads of a 'twice' unit
         orig = P.load_schema
+        self._loader = None
+        if unit.get('same_loader'):
+            import ZConfig.loader
+            self._loader = ZConfig.loader.ConfigLoader(P.load_schema(SD_XML, True))
         a = self._cached(unit, SD_XML, self.text_files(unit, inp), concrete)
         if 'files2' not in unit:
             return a
         b = self._cached(unit, SD_XML, self.files2(unit, inp), concrete)
+        self._loader = None
         P._SCHEMA_CACHE.clear()
         return ('two', a, b)
 
     def _cached(self, unit, xml, files, concrete):
         store = {P.BASE + n: ls for n, ls in files}
         with common.env_scope(concrete, {}), P.mem_resources(store):
-            r = P.run_load(xml, files[0][1], url=P.BASE + files[0][0], cache_schema=True)
+            if getattr(self, '_loader', None) is not None:
+                import ZConfig
+                try:
+                    cfg, h = self._loader.loadFile(common.make_file(files[0][1]), P.BASE + files[0][0])
+                    r = ('ok', cfg, h)
+                except ZConfig.ConfigurationError as e:
+                    r = ('reject', type(e).__name__, e)
+                except Exception as e:
+                    r = ('crash', type(e).__name__, e)
+            else:
+                r = P.run_load(xml, files[0][1], url=P.BASE + files[0][0], cache_schema=True)
         if r[0] == 'ok':
             return ('ok', P.walk(r[1]))
         if r[0] == 'crash':
